@@ -67,6 +67,60 @@ def run(ctx):
         w = cfg.must_pass_before_exit(writes, lambda x: x.i == c.i)
         ok = whole and lo == 0 and "this.upper_bound" in hi_key and w is None
         det = "threshold_upper_lower(image.begin_all(), image.end_all(), %s, %s) follows all %d modifications of the image" % (lo, hi_key, len(writes)) if ok else "clamp: whole=%s lower=%s upper=%s, a modification can reach the exit without it=%s" % (whole, lo, hi_key, w is not None)
+    hand = None
+    if not clamps:
+        # a clamp written by hand: in a loop over the image `if (*i < L) *i = L` and `if (*i > U) *i = U`, each reached whatever else
+        # holds (nesting under the complementary test of the same element is fine, nesting under anything else is not)
+        its = {d for d, v in alg.defs.decl.items() if v.c and any(x.is_call() and (x.callee or key(x, True)).split("::")[-1].split("(")[0].startswith("begin_all") and any(y.k == "DeclRefExpr" and "v%d" % y.get("d") == img for y in x.walk()) for x in v.c[0].walk())}
+        elems = {"*v%d" % d for d in its}
+
+        def elem_cmp(c):
+            c = c.strip()
+            if c.k in ("BinaryOperator", "CXXOperatorCallExpr") and c.op in ("<", "<=", ">", ">=") and len(c.c) >= 2:
+                a, b = key(c.c[-2].strip()), key(c.c[-1].strip())
+                if a in elems:
+                    return ("lower" if c.op in ("<", "<=") else "upper", c.c[-1].strip())
+                if b in elems:
+                    return ("upper" if c.op in ("<", "<=") else "lower", c.c[-2].strip())
+            return None
+
+        found = {}
+        conditional = []
+        for m in f.walk():
+            if m.k != "IfStmt":
+                continue
+            ec = elem_cmp(m.c[0])
+            if ec is None:
+                continue
+            sets = [x for x in m.c[1].walk() if x.k in ("BinaryOperator", "CXXOperatorCallExpr") and x.op == "=" and key(x.c[-2].strip() if x.k == "CXXOperatorCallExpr" else x.c[0].strip()) in elems]
+            if not sets:
+                continue
+            outer = []
+            for a_ in m.ancestors():
+                if a_.k in ("ForStmt", "WhileStmt", "CXXForRangeStmt"):
+                    break
+                if a_.k == "IfStmt" and elem_cmp(a_.c[0]) is None:
+                    outer.append(a_)
+            if outer:
+                conditional.append((ec[0], outer[0]))
+            else:
+                found[ec[0]] = (ec[1], m)
+        if found or conditional:
+            hand = (found, conditional)
+    if hand is not None:
+        found, conditional = hand
+        if conditional:
+            ok = False
+            det = "the %s bound is only applied when `%s` holds (%s): a voxel that is outside [0, upper bound] for another reason (start image, filter) stays outside" % (conditional[0][0], key(conditional[0][1].c[0], True), conditional[0][1].where())
+        elif set(found) == {"lower", "upper"}:
+            lo = alg.expr(found["lower"][0])
+            hi_key = key(found["upper"][0], False, inl)
+            last = max((m for _b, m in found.values()), key=lambda m: m.line)
+            ok = lo == 0 and "this.upper_bound" in hi_key
+            det = "every element is compared with 0 and with the upper bound after the update (hand-written clamp at %s)" % last.where() if ok else "hand-written clamp with lower=%s upper=%s" % (lo, hi_key)
+        else:
+            ok = False
+            det = "only the %s bound is applied to the image elements" % sorted(found)[0]
     ctx.ob("C08.a-iterate-clamped", f.qn, "clamp-to-[0,upper_bound]", ok, f.where(), det)
     # ---- b   (objects are identified by what is done with them, never by their names)
     tr = [c for c in f.calls() if c.callee == "std::transform"]
@@ -139,6 +193,22 @@ def run(ctx):
     compact = [k for i, (_c, k) in enumerate(kinds) if i == 0 or kinds[i - 1][1] != k]
     ok = compact == ["mul-N", "div-D", "mul-relax"]
     add = [m for m in f.walk() if m.k in ("CompoundAssignOperator", "CXXOperatorCallExpr") and m.op == "+=" and key(m.c[0]) == img and NUM is not None and key(m.c[1].strip()) == NUM]
+    if not add and NUM is not None:
+        # the same addition written element by element: `*i += *u` with i running over the image and u over the numerator
+        def runs_over(d, rootkey):
+            v = alg.defs.decl.get(d)
+            if v is None or not v.c:
+                return False
+            return any(x.is_call() and (x.callee or key(x, True)).split("::")[-1].split("(")[0].startswith("begin_all") and any(y.k == "DeclRefExpr" and "v%d" % y.get("d") == rootkey for y in x.walk()) for x in v.c[0].walk())
+
+        numroot = NUM.lstrip("*")
+        for m in f.walk():
+            if m.k in ("CompoundAssignOperator", "CXXOperatorCallExpr") and m.op == "+=" and len(m.c) >= 2:
+                l, r = m.c[-2].strip(), m.c[-1].strip()
+                ld = [x.get("d") for x in l.walk() if x.k == "DeclRefExpr" and x.get("dk") == "local"]
+                rd = [x.get("d") for x in r.walk() if x.k == "DeclRefExpr" and x.get("dk") == "local"]
+                if len(ld) == 1 and len(rd) == 1 and key(l).startswith("*") and key(r).startswith("*") and runs_over(ld[0], img) and runs_over(rd[0], numroot):
+                    add.append(m)
     divids = {c.i for c, k in kinds if k == "div-D"}
     straight = [c for c, k in kinds if k != "div-D"]
     ok = ok and len(add) == 1 and len(sub) == 1 and all(cfg.dominates(c, add[0]) for c in straight) and cfg.must_pass_from_entry(add, lambda x: x.i in divids) is None and bool(numtr) and cfg.dominates(sub[0], numtr[0])
@@ -245,6 +315,21 @@ def run(ctx):
         ok3 = w is None and all(r.i in hcfg.pos for r in rets)
         ctx.ob("C08.e-set-up-renews-denominator", h.qn, "every-successful-path", ok3, h.where(), "every successful path of set_up() gives precomputed_denominator_ptr a new value (the previous run modified the old one in place)" if ok3 else "a successful path of set_up() keeps the stored denominator of the previous run, which update_estimate() has modified in place (prior share added, thresholded): a resumed or repeated run no longer starts from -(approximate Hessian x ones)")
     ctx.require_count("C08.e-set-up-renews-denominator", 1)
+    # ---- h  `iterates always lie within [0, upper bound]`: the interval must not be empty - set_up() refuses an upper bound that is not
+    #         positive (a negative one was accepted and every voxel of every iterate became that number; F99).  The member is the one the
+    #         clamp of clause a reads.
+    ubk = "this.upper_bound"
+    refused = False
+    for m in h.walk():
+        if m.k != "IfStmt":
+            continue
+        c = m.c[0].strip()
+        cmp_ = [b for b in c.walk() if b.k == "BinaryOperator" and ((b.op in ("<=", "<") and key(b.c[0].strip()) == ubk and key(b.c[1].strip()) in ("0", "0.0")) or (b.op in (">=", ">") and key(b.c[1].strip()) == ubk and key(b.c[0].strip()) in ("0", "0.0")))]
+        cmp_ = [b for b in cmp_ if b.op in ("<=", ">=")]
+        if cmp_ and any((x.k == "ReturnStmt" and "Succeeded::no" in key(x)) or (x.is_call() and (x.callee or "").split("::")[-1] == "error") for x in m.c[1].walk()):
+            refused = True
+    ctx.ob("C08.h-bounds-validated", h.qn, "upper-bound-positive", refused, h.where(), "set_up() refuses an upper bound <= 0" if refused else "set_up() accepts an upper bound <= 0: the interval [0, upper bound] is empty and the clamp makes every voxel of every iterate equal to the (negative) upper bound")
+    ctx.require_count("C08.h-bounds-validated", 1)
     # ---- f  OSSPS adds the prior's surrogate curvature to D once per run unless the prior says that the curvature depends on the image
     #         (parabolic_surrogate_curvature_depends_on_argument()).  A prior that answers `false` must be right: in its
     #         parabolic_surrogate_curvature(out, image) no ELEMENT of `image` may be read - only its index ranges / geometry.
